@@ -152,6 +152,69 @@ let table_name (t : (nat * nat) list) : string =
   | [] -> "none"
   | l -> String.concat "+" (List.map (fun (s, m) -> Printf.sprintf "%d:%d" s m) l)
 
+(* ---- pools whose aggregator is the real encoder aggregator: the operations it performed on its encoder / sink
+   (observable V, run-length coded: o/O open, e/E encode, f/F flush, c/C close; capital = failed) as an environment of
+   Model/EncAggrRun.v: every Encode / Flush but the last Flush is an event of the loops, the last Flush is the deferred
+   final one ---- *)
+let ea_of_v (v : string) (dropped : bool) : earun option =
+  if v = "-" || v = "none" || v = "" then None
+  else begin
+    let items = List.concat_map (fun it ->
+      if String.length it < 2 then []
+      else let n = (try int_of_string (String.sub it 1 (String.length it - 1)) with _ -> 1) in
+           List.init n (fun _ -> it.[0])) (String.split_on_char '.' v) in
+    let opened = List.mem 'o' items in
+    let close_ok = not (List.mem 'C' items) in
+    let ops = List.filter (fun ch -> ch = 'e' || ch = 'E' || ch = 'f' || ch = 'F') items in
+    (* the last flush is the deferred one *)
+    let arr = Array.of_list ops in
+    let last = ref (-1) in
+    Array.iteri (fun i ch -> if ch = 'f' || ch = 'F' then last := i) arr;
+    let loop_ops = List.filteri (fun i _ -> i <> !last) ops in
+    let final_ok = (!last < 0) || arr.(!last) = 'f' in
+    let to_op ch = (match ch with 'e' -> OpEncode true | 'E' -> OpEncode false | 'f' -> OpFlush true | _ -> OpFlush false) in
+    Some (ea_of_trace opened (List.map to_op loop_ops) final_ok close_ok dropped)
+  end
+
+let ecause_name = function
+  | EcOpen -> "open" | EcEncode -> "enc" | EcFlush -> "flush" | EcFinal -> "final" | EcClose -> "close" | EcDropped -> "dropped"
+
+let ea_result_name (l : ecause list) : string = match l with [] -> "nil" | _ -> String.concat "+" (List.map ecause_name l)
+
+(* ---- pools whose gun / schedule factory is built by the real plugin registry: pg-<gun|sched>-<shape>[n][f] ---- *)
+type pg = { p_what : string; p_shape : string; p_nil : bool }
+
+let pg_of_pool (spec : string) : pg option =
+  let f = pool_fields spec in
+  if Array.length f < 8 then None
+  else match String.split_on_char '-' f.(4) with
+    | [ "pg"; what; sh ] ->
+        let sh = ref sh and nl = ref false in
+        let continue = ref true in
+        while !continue do
+          let n = String.length !sh in
+          if n > 0 && !sh.[n - 1] = 'n' then (nl := true; sh := String.sub !sh 0 (n - 1))
+          else if n > 0 && !sh.[n - 1] = 'f' then sh := String.sub !sh 0 (n - 1)
+          else continue := false
+        done;
+        Some { p_what = what; p_shape = !sh; p_nil = !nl }
+    | _ -> None
+
+(* one call: what the registered constructor returned (ok | nil | err | - = not called: its config could not be
+   filled) -> the model's arguments of [factory_call] *)
+let pg_call (g : pg) (c : string) : bool * nat option * pval list =
+  let direct = (g.p_shape = "ie" || g.p_shape = "fie") in
+  let conf = if c = "-" then Some (nat_of_int 2) else None in
+  let objnil = (c = "nil") || (c = "err" && g.p_nil) in
+  let e = if c = "err" then Some (nat_of_int 1) else None in
+  let out = (match g.p_shape with
+    | "pe" | "cpe" | "fpe" -> [ VImpl objnil; VErr e ]
+    | "ie" | "cie" | "fie" -> [ VPlug objnil; VErr e ]
+    | _ -> [ VImpl objnil ]) in
+  (direct, conf, out)
+
+let fres_name = function FrOk n -> if n then "nil" else "ok" | FrErr _ -> "err" | FrPanic _ -> "perr" | FrCrash -> "crash"
+
 let predict (c : string) (obs : string) : string * string * bool =
   match split_blank c with
   | kind :: cancel :: pool_specs when kind = "run" || kind = "guns" ->
@@ -241,6 +304,32 @@ let predict (c : string) (obs : string) : string * string * bool =
       let m_pred = String.concat "," (List.init npools (fun p ->
         let o = if p < Array.length m_obs then m_obs.(p) else "-" in
         match gw_pred p with Some (_, Some t) when o <> "-" -> t | Some (_, None) -> "-" | _ -> o)) in
+      (* E: what the real encoder aggregator's Run returned, predicted by the model of its run loop
+         (Model/EncAggrRun.v, [ea_run tree_epolicy]) on the operations it performed (V) *)
+      let e_obs = obs_list "E" and v_obs = obs_list "V" and f_obs = obs_list "F" in
+      let ea_env p = if p < Array.length v_obs && p < Array.length e_obs && e_obs.(p) <> "-" then
+          (* whether the reporter dropped samples (its queue ran full) is part of the environment: read off the result *)
+          ea_of_v v_obs.(p) (List.mem "dropped" (String.split_on_char '+' e_obs.(p)))
+        else None in
+      let e_pred = String.concat "," (List.init npools (fun p ->
+        match ea_env p with
+        | Some env -> ea_result_name (ea_run tree_epolicy env)
+        | None -> if p < Array.length e_obs then e_obs.(p) else "-")) in
+      (* F: per call of a factory built by the real plugin registry, what the registered constructor returned and what
+         the factory made of it, predicted by the model (Model/PlugFactory.v, [factory_call tree_cvprog]) *)
+      let pg_calls p =
+        match pg_of_pool specs.(p) with
+        | Some g when p < Array.length f_obs && f_obs.(p) <> "-" && f_obs.(p) <> "none" ->
+            Some (g, List.map (fun it -> match String.split_on_char '/' it with [ c; f ] -> (c, f) | _ -> (it, "?"))
+                       (String.split_on_char '.' f_obs.(p)))
+        | _ -> None in
+      let f_pred = String.concat "," (List.init npools (fun p ->
+        match pg_calls p with
+        | Some (g, calls) ->
+            String.concat "." (List.map (fun (c, _) ->
+              let (direct, conf, out) = pg_call g c in
+              c ^ "/" ^ fres_name (factory_call tree_cvprog (nat_of_int 2) direct conf out)) calls)
+        | None -> if p < Array.length f_obs then f_obs.(p) else "-")) in
       let describe (events, res) =
         match res with
         | None ->
@@ -249,9 +338,9 @@ let predict (c : string) (obs : string) : string * string * bool =
         | Some g ->
             let r = (match g.eng with None -> "hang" | Some er -> res_name er.er_res) in
             let k = (match outstanding_at_wait current cfg g0 events with Some k -> string_of_int (int_of_nat k) | None -> "-") in
-            (true, r, Printf.sprintf "R=%s W=%s G=%s K=%s N=%d Q=%s A=%s U=%s M=%s C=%d L=%d T=%s" r
+            (true, r, Printf.sprintf "R=%s W=%s G=%s K=%s N=%d Q=%s A=%s U=%s M=%s E=%s V=%s F=%s C=%d L=%d T=%s" r
               (field_of_bool (wait_returns g)) (field_of_bool (terminal g && not (any_panicked g)))
-              k (int_of_nat (total_comp_runs g)) q_pred a_pred u_pred m_pred
+              k (int_of_nat (total_comp_runs g)) q_pred a_pred u_pred m_pred e_pred (field of_ "V") f_pred
               (int_of_nat (total_created g)) (int_of_nat (total_closed g)) (String.concat "," toks)) in
       let results = List.map (fun k -> describe (run_candidate k)) candidates in
       let pred =
@@ -328,6 +417,37 @@ let predict (c : string) (obs : string) : string * string * bool =
             else if want = "nil" then Some (Printf.sprintf "BAD:outcome:warm-up-failed-without-cause:grpc-gun pool=%d reported=%s" p got)
             else Some (Printf.sprintf "BAD:outcome:warm-up-cause-not-the-first-failure:grpc-gun pool=%d reported=%s first=%s" p got want)
         | _ -> None) (List.init npools (fun p -> p)) in
+      (* the aggregator as a component: what the real encoder aggregator's Run returned against what the specification
+         says of the operations it performed -- an error iff something went wrong ([ea_spec_fails]), carrying the FIRST
+         thing that went wrong ([ea_spec_first]) *)
+      let bad_aggr = List.find_map (fun p ->
+        match ea_env p with
+        | Some env ->
+            let got = e_obs.(p) in
+            let first = (match ea_spec_first env with Some cz -> ecause_name cz | None -> "nil") in
+            let got_first = (match String.split_on_char '+' got with x :: _ -> x | [] -> got) in
+            if got = "nil" && ea_spec_fails env then
+              Some (Printf.sprintf "BAD:outcome:aggregator-nil-despite-failure:encoder-aggregator pool=%d has-to-report=%s ops=%s" p first v_obs.(p))
+            else if got <> "nil" && not (ea_spec_fails env) then
+              Some (Printf.sprintf "BAD:outcome:aggregator-failed-without-cause:encoder-aggregator pool=%d reported=%s ops=%s" p got v_obs.(p))
+            else if got <> "nil" && got_first <> first then
+              Some (Printf.sprintf "BAD:outcome:aggregator-cause-not-the-first-failure:encoder-aggregator pool=%d reported=%s first=%s" p got first)
+            else None
+        | None -> None) (List.init npools (fun p -> p)) in
+      (* gun / schedule creation through the plugin registry: every call of the factory against the specification
+         [factory_spec] -- a failed creation (constructor error, config fill error) is the factory's error *)
+      let bad_factory = List.find_map (fun p ->
+        match pg_calls p with
+        | Some (g, calls) ->
+            List.find_map (fun (c, f) ->
+              let (direct, conf, out) = pg_call g c in
+              let want = fres_name (factory_spec (nat_of_int 2) (if direct then None else conf) out) in
+              if f = want then None
+              else if want = "err" then
+                Some (Printf.sprintf "BAD:outcome:factory-nil-despite-creation-failure:%s-factory-of-the-plugin-registry pool=%d shape=%s constructor=%s factory=%s" g.p_what p g.p_shape c f)
+              else Some (Printf.sprintf "BAD:outcome:factory-result-not-the-constructors:%s-factory-of-the-plugin-registry pool=%d shape=%s constructor=%s factory=%s want=%s" g.p_what p g.p_shape c f want))
+              calls
+        | None -> None) (List.init npools (fun p -> p)) in
       let verdict =
         if kind = "guns" then begin
           if spec_guns_b o then "ok"
@@ -361,6 +481,10 @@ let predict (c : string) (obs : string) : string * string * bool =
         end
         else if bad_warm <> None then
           (match bad_warm with Some m -> m | None -> "ok")
+        else if bad_aggr <> None then
+          (match bad_aggr with Some m -> m | None -> "ok")
+        else if bad_factory <> None then
+          (match bad_factory with Some m -> m | None -> "ok")
         else if short_pool <> None then
           (match short_pool with
            | Some (p, shot, want) ->
